@@ -863,11 +863,11 @@ func ComparisonExpr(query *Query, current Map, expr *sqlparser.ComparisonExpr, o
 		}
 	case sqlparser.LikeOp:
 		{
-			return RegexComparison(fmt.Sprintf("%v", leftValue), fmt.Sprintf("%v", rightValue))
+			return RegexComparison(compare.Text(leftValue), compare.Text(rightValue))
 		}
 	case sqlparser.NotLikeOp:
 		{
-			rs, err := RegexComparison(fmt.Sprintf("%v", leftValue), fmt.Sprintf("%v", rightValue))
+			rs, err := RegexComparison(compare.Text(leftValue), compare.Text(rightValue))
 			if err != nil {
 				return false, err
 			}
@@ -2097,7 +2097,7 @@ func RegexComparison(left any, pattern string) (bool, error) {
 		}
 	}
 	regExpr.WriteString("$")
-	return regexp.Match(regExpr.String(), []byte(strings.ToLower(fmt.Sprintf("%v", left))))
+	return regexp.Match(regExpr.String(), []byte(strings.ToLower(compare.Text(left))))
 }
 
 func RegisterFunction(name string, function Function) {
